@@ -713,6 +713,13 @@ func NewExocoreApp(
 		app.EpochsKeeper,
 	)
 
+	// the delegation hooks must be set before the keeper is handed (by value) to the precompiles
+	// below: a copy taken earlier has no hooks, and undelegations made through the delegation
+	// precompile would never be reported to the dogfood module (no unbonding hold at all).
+	(&app.DelegationKeeper).SetHooks(
+		app.StakingKeeper.DelegationHooks(),
+	)
+
 	app.EvmKeeper.WithPrecompiles(
 		evmkeeper.AvailablePrecompiles(
 			app.AuthzKeeper,
@@ -790,10 +797,6 @@ func NewExocoreApp(
 	// set the hooks at the end, after all modules are instantiated.
 	(&app.OperatorKeeper).SetHooks(
 		app.StakingKeeper.OperatorHooks(),
-	)
-
-	(&app.DelegationKeeper).SetHooks(
-		app.StakingKeeper.DelegationHooks(),
 	)
 
 	(&app.EpochsKeeper).SetHooks(
